@@ -91,7 +91,8 @@ Record case := mk_case {
   c_flat : option (list node);    (* the gateway's normalised query; None = error *)
   c_plan : option plan;           (* the gateway's plan *)
   c_answer : option json;         (* the gateway's answer *)
-  c_ref : option json             (* the harness' reference answer *)
+  c_ref : option json;            (* the harness' reference answer *)
+  c_all_federated : bool          (* every object type of this federation is registered with FetchObjectFromKeys *)
 }.
 
 Definition first_owner (l : list string) : option string := match l with x :: _ => Some x | [] => None end.
@@ -121,7 +122,13 @@ Definition check_case (c : case) : list nat :=
    | None => []
    | Some r => if opt_json_eqb (option_map norm (eval_ref w g (depth_list (c_query c) + 2) "Query" 0%Z (c_query c))) (Some r)
                then [] else [4]
-   end).
+   end) ++
+  (* the premise of Props/C06.subquery_closed holds for this federation, and its conclusion holds of the plan
+     the gateway actually made *)
+  (if c_all_federated c then
+     if fed_ok g && match c_plan c with Some p => forallb (plan_closed g) (p_after p) | None => true end
+     then [] else [5]
+   else []).
 
 Fixpoint mismatches_from_sparse (_ : nat) (cs : list (nat * case)) : list (nat * list nat) :=
   match cs with
